@@ -2,6 +2,7 @@ package sx
 
 import (
 	"fmt"
+	"strings"
 	"go/types"
 
 	"golang.org/x/tools/go/ssa"
@@ -75,6 +76,18 @@ func init() {
 		target, ok := args[0].(iface).v.(*ssa.Function)
 		if !ok {
 			panic("vrt.Replace: first argument must be a top-level function")
+		}
+		// a method expression (*T).m is a synthetic thunk around the declared method: replace the method
+		if strings.HasPrefix(target.Synthetic, "thunk") || strings.HasPrefix(target.Synthetic, "wrapper") {
+			for _, b := range target.Blocks {
+				for _, in := range b.Instrs {
+					if c, isCall := in.(ssa.CallInstruction); isCall {
+						if callee := c.Common().StaticCallee(); callee != nil {
+							target = callee
+						}
+					}
+				}
+			}
 		}
 		if X.replaced == nil {
 			X.replaced = map[*ssa.Function]value{}
